@@ -266,6 +266,12 @@ int muggle_str_toi(const char *str, int *pval, int base)
 		return 0;
 	}
 
+	if (base != 0 && (base < 2 || base > 36))
+	{
+		// not a base of the strtol family (which would leave endptr unset)
+		return 0;
+	}
+
 	errno = 0;
     ret = strtol(str, &endptr, base);
 	if (endptr == str)
@@ -304,6 +310,12 @@ int muggle_str_tou(const char *str, unsigned int *pval, int base)
 
 	if (str == NULL || pval == NULL)
 	{
+		return 0;
+	}
+
+	if (base != 0 && (base < 2 || base > 36))
+	{
+		// not a base of the strtol family (which would leave endptr unset)
 		return 0;
 	}
 
@@ -347,6 +359,12 @@ int muggle_str_tol(const char *str, long *pval, int base)
 		return 0;
 	}
 
+	if (base != 0 && (base < 2 || base > 36))
+	{
+		// not a base of the strtol family (which would leave endptr unset)
+		return 0;
+	}
+
 	errno = 0;
 	*pval = strtol(str, &endptr, base);
 	if (endptr == str)
@@ -377,6 +395,12 @@ int muggle_str_toul(const char *str, unsigned long *pval, int base)
 
 	if (str == NULL || pval == NULL)
 	{
+		return 0;
+	}
+
+	if (base != 0 && (base < 2 || base > 36))
+	{
+		// not a base of the strtol family (which would leave endptr unset)
 		return 0;
 	}
 
@@ -418,6 +442,12 @@ int muggle_str_toll(const char *str, long long *pval, int base)
 		return 0;
 	}
 
+	if (base != 0 && (base < 2 || base > 36))
+	{
+		// not a base of the strtol family (which would leave endptr unset)
+		return 0;
+	}
+
 	errno = 0;
     *pval = strtoll(str, &endptr, base);
 	if (endptr == str)
@@ -448,6 +478,12 @@ int muggle_str_toull(const char *str, unsigned long long *pval, int base)
 
 	if (str == NULL || pval == NULL)
 	{
+		return 0;
+	}
+
+	if (base != 0 && (base < 2 || base > 36))
+	{
+		// not a base of the strtol family (which would leave endptr unset)
 		return 0;
 	}
 
